@@ -50,6 +50,16 @@ var sites = []site{
 	{"voteSet_hasAll", "gemmill/types/vote_set.go", "HasAll", "return", `TotalVotingPower`, "", "C15 C04"},
 	{"verifyCommit_enough", "gemmill/types/validator_set.go", "VerifyCommit", "if", `talliedVotingPower\W+valSet`, "", "C02 C13 C15"},
 	{"checkMajor23", "gemmill/plugin/admin_op.go", "CheckMajor23", "return", `TotalVotingPower`, "", "C14"},
+	{"voteSet_addVote", "gemmill/types/vote_set.go", "addVote", "tree", "", `addVerifiedVote\(`, "C15 C08"},
+	{"admin_from", "gemmill/plugin/admin_op.go", "ProcessAdminOP", "if", `app\.From\(\)`, "", "C14"},
+	{"admin_nonce", "gemmill/plugin/admin_op.go", "ProcessAdminOP", "if", `vAttr\.Nonce`, "", "C14"},
+	{"admin_samePower", "gemmill/plugin/admin_op.go", "ProcessAdminOP", "if", `val\.VotingPower\W+vAttr\.Power`, "", "C14"},
+	// ---- transport framing (C20)
+	{"packet_isLast", "gemmill/p2p/connection.go", "nextMsgPacket", "if", `len\(ch\.sending\)\W+maxMsgPacketPayloadSize`, "", "C20"},
+	{"packet_take", "gemmill/p2p/connection.go", "nextMsgPacket", "slicehi", `^ch\.sending\[:`, "", "C20"},
+	{"packet_tooLong", "gemmill/p2p/connection.go", "recvMsgPacket", "if", `RecvMessageCapacity`, "", "C20"},
+	{"packet_eof", "gemmill/p2p/connection.go", "recvMsgPacket", "if", `packet\.EOF`, "", "C20"},
+	{"frame_split", "gemmill/p2p/secret_connection.go", "Write", "if", `dataMaxSize\W+len\(data\)`, "", "C20"},
 	// ---- round state machine guards (C04, C08, C12, C07)
 	{"handleTimeout_stale", "gemmill/consensus/pbft/state.go", "handleTimeout", "if", `ti\.Height\W+rs\.Height`, "", "C04 C08 C12"},
 	{"enterNewRound_guard", "gemmill/consensus/pbft/state.go", "enterNewRound", "if", `cs\.Height\W+height`, "", "C04"},
@@ -133,9 +143,15 @@ type env struct {
 	errs []string
 }
 
+// names bound by `if x, ok := f(...); ok {`: the identifier stands for a result of that call
+var subst = map[string]string{}
+
 func flat(e ast.Expr) (string, bool) {
 	switch x := e.(type) {
 	case *ast.Ident:
+		if r, ok := subst[x.Name]; ok {
+			return r, true
+		}
 		return x.Name, true
 	case *ast.SelectorExpr:
 		if p, ok := flat(x.X); ok {
@@ -225,6 +241,20 @@ func (v *env) intExpr(e ast.Expr) string {
 			return "(Int.tdiv " + a + " " + b + ")"
 		case token.REM:
 			return "(Int.tmod " + a + " " + b + ")"
+		}
+	}
+	if c, ok := e.(*ast.CallExpr); ok && len(c.Args) == 1 {
+		switch src(c.Fun) { // conversions
+		case "byte", "int", "int8", "int32", "int64", "uint", "uint64":
+			return v.intExpr(c.Args[0])
+		}
+	}
+	if c, ok := e.(*ast.CallExpr); ok && len(c.Args) == 2 {
+		switch src(c.Fun) {
+		case "gcmn.MinInt", "MinInt":
+			return "(min " + v.intExpr(c.Args[0]) + " " + v.intExpr(c.Args[1]) + ")"
+		case "gcmn.MaxInt", "MaxInt":
+			return "(max " + v.intExpr(c.Args[0]) + " " + v.intExpr(c.Args[1]) + ")"
 		}
 	}
 	if n, ok := flat(e); ok {
@@ -366,7 +396,22 @@ func (v *env) tree(stmts []ast.Stmt, stop *regexp.Regexp, ind string) string {
 			return res
 		case *ast.IfStmt:
 			if x.Init != nil {
-				v.errs = append(v.errs, "if with init statement inside a tree: "+src(x.Cond))
+				as, ok := x.Init.(*ast.AssignStmt)
+				okForm := ok && len(as.Rhs) == 1
+				if okForm {
+					if call, isCall := flat(as.Rhs[0]); isCall {
+						for _, l := range as.Lhs {
+							if id, isId := l.(*ast.Ident); isId && id.Name != "_" {
+								subst[id.Name] = call + "_" + id.Name
+							}
+						}
+					} else {
+						okForm = false
+					}
+				}
+				if !okForm {
+					v.errs = append(v.errs, "if with an init statement that is not `x, ok := f(...)`: "+src(x.Cond))
+				}
 			}
 			rest := stmts[i+1:]
 			thenT := v.tree(append(append([]ast.Stmt{}, x.Body.List...), rest...), stop, ind+"  ")
@@ -535,6 +580,7 @@ func main() {
 			continue
 		}
 		v := &env{vars: map[string]string{}}
+		subst = map[string]string{}
 		var body, typ, prefix, orig string
 		switch st.kind {
 		case "tree":
